@@ -36,10 +36,13 @@ def run(ctx):
             ctx.violation("C06:crash:process", "the receive path crashed outside the recovered region: %s" % ce[1]["text"], replay={"output": out[-20000:]})
             continue
         ev = vf.read_ndjson(e["VF_OUT"])
-        events += ev if e is envs[0] else [x for x in ev if x["id"] > 0]
+        events += ev
     seenb = set()
     uniq = []
     for e in events:          # the enumerated part is identical in every process: keep one copy
+        if e["ev"] == "ReplyBatch":
+            uniq.append(e)
+            continue
         kkey = (e["scan"], e["vpn"], tuple(e["bytes"]), e["status"], e["nrec"], str(e["rec"]))
         if kkey not in seenb:
             seenb.add(kkey)
@@ -51,6 +54,14 @@ def run(ctx):
     ctx.count(len(events), [("frame", i) for i in range(len(events))])
     seen = set()
     for b in wc.validate_wire(ctx, events, "c06"):
+        if b["ev"] == "ReplyBatch":
+            key = "C06:%s:history" % b["cfg"]["scan"]
+            if key not in seen:
+                seen.add(key)
+                ctx.violation(key, "%s scan method as built by the command: over a history of %d valid frames the records are not, in order, those of the frames themselves "
+                              "(a field left over from an earlier frame, a missing or an extra record): first records %s" % (b["cfg"]["scan"], len(b["frames"]), b["recs"][:3]),
+                              replay={"property": "C06", "trace_spec": "WireTrace", "run": [b]})
+            continue
         l3 = 0 if b["vpn"] else 14
         by = b["bytes"]
         kind = "crash" if b["status"] == "crash" else ("arp-fields" if b["scan"] == "arp" else ("ip-in-ip-stale" if len(by) > l3 + 9 and by[l3 + 9] == 4 else "phantom"))
@@ -61,5 +72,5 @@ def run(ctx):
         ctx.violation(key, "%s processor (%s) on frame %s...: status %s, %d record(s) %s - no header chain of this frame carries these fields (%s)" %
                       (b["scan"], "raw IP" if b["vpn"] else "Ethernet", by[:60], b["status"], b["nrec"], b["rec"], b["text"]),
                       replay={"property": "C06", "trace_spec": "WireTrace", "run": [b]})
-    for e in events[:2]:
+    for e in [x for x in events if x["ev"] == "Frame"][:2]:
         ctx.sample({k: (v if k != "bytes" else v[:60]) for k, v in e.items()})
